@@ -14,6 +14,7 @@ func runC03(c *Ctx) {
 	c.Clause("C03.2 STREAM data is queued, and RESET_STREAM state recorded, only after the flow controller accepted the (final) offset; the offsets handed to the flow controller and to the sorter come from the same frame")
 	c.Clause("C03.3 final-size contradictions are FINAL_SIZE_ERROR, window overruns FLOW_CONTROL_ERROR, too many gaps an error before anything is stored")
 	c.Clause("C03.4 CRYPTO data is queued only within MaxCryptoStreamOffset and before the stream finished; Finish refuses while data is pending")
+	c.Clause("C03.6 a frame popped from the receive queue is marked last only if the stream was not reset by the peer (no io.EOF after RESET_STREAM)")
 	c.NotCovered("gap-list algebra and overlap cutting (byte-level reassembly correctness)")
 	c.NotCovered("Peek, EOF exactly at the final size")
 
@@ -21,6 +22,7 @@ func runC03(c *Ctx) {
 	c.rule("C03.2", func() { c03Receive(c) })
 	c.rule("C03.3", func() { c03Errors(c) })
 	c.rule("C03.4", func() { c03Crypto(c) })
+	c.rule("C03.6", func() { c03LastFrameNotAfterReset(c) })
 }
 
 // callsValue: call of a function value matching pat.
